@@ -23,6 +23,11 @@ func bigCase(t *fw.T) (*gen.Node, string, int) {
 	return gen.Big(r, kind, n), kind, n
 }
 
+// limitCfgs (single goroutine): large programs are compiled under the quick tier's number of option sets also in the
+// thorough tier - the per-case CPU budget is a statement about xjs's work on one input, and twenty option sets times
+// format / re-parse / format again on a 5 000-node program is the harness's volume, not xjs's.
+var limitCfgs bool
+
 var bigLayouts = []NamedLayout{stdLayouts[0], stdLayouts[1], stdLayouts[2], stdLayouts[4], stdLayouts[7]}
 
 func init() {
@@ -64,11 +69,15 @@ func init() {
 	})
 	add("C06", func(t *fw.T) {
 		prog, kind, n := bigCase(t)
+		limitCfgs = true
+		defer func() { limitCfgs = false }()
 		checkC06Prog(t, t.Rand(), prog)
 		t.Distinct(fmt.Sprint(kind, n))
 	})
 	add("C08", func(t *fw.T) {
 		prog, kind, n := bigCase(t)
+		limitCfgs = true
+		defer func() { limitCfgs = false }()
 		checkC08Prog(t, t.Rand(), prog)
 		t.Distinct(fmt.Sprint(kind, n))
 	})
